@@ -311,7 +311,7 @@ func driveCPRand(s *exec.State, g *gen.G, n int) {
 		if withCNAME {
 			t = 1
 		}
-		items := abs.L{abs.V{"t": g.Pick(2, 3, 8), "text": g.Bytes(g.Int(0, 4))}}
+		items := abs.L{abs.V{"t": g.Pick(2, 3, 8, 0, 255), "text": g.Bytes(g.Int(0, 4))}}
 		if withCNAME || g.Bool() {
 			items = append(items, abs.V{"t": t, "text": g.Bytes(g.Int(0, 6))})
 		}
@@ -531,6 +531,17 @@ func amplifiers() [][]byte {
 				out = append(out, frame(205, 15, body))
 			}
 		}
+	}
+	// TWCC: runs that stop a few packets short of the status count, then a vector chunk whose 14 symbols carry a
+	// 16-bit counter of processed packets past 65535 and back to a small number, many times over
+	for _, short := range []int{6, 13, 1} {
+		body := append(append([]byte(nil), hdr...), 0, 1, 0xFF, 0xFF, 9, 9, 9, 1)
+		for cyc := 0; cyc < 80; cyc++ {
+			body = append(body, rep([]byte{0x3F, 0xFF}, 7)...)
+			last := 8198 - short // 7 * 8191 + last = 65535 - short
+			body = append(body, 0x20|byte(last>>8), byte(last), 0x80, 0x00)
+		}
+		out = append(out, frame(205, 15, body))
 	}
 	// SDES: many empty items / many minimal chunks
 	for _, n := range []int{16, 100, 700} {
@@ -779,6 +790,33 @@ func init() {
 				}
 			}
 		}
+		// two different values whose %v renderings coincide (a text that contains what the formatter puts between
+		// two items), in one list, in both orders
+		{
+			txt := func(x string) abs.L { return toL([]byte(x)) }
+			one := abs.V{"k": "SDES", "chunks": abs.L{abs.V{"src": abs.L{1, 2, 3, 4}, "items": abs.L{abs.V{"t": 1, "text": txt("a} {CNAME b")}}}}}
+			two := abs.V{"k": "SDES", "chunks": abs.L{abs.V{"src": abs.L{1, 2, 3, 4}, "items": abs.L{abs.V{"t": 1, "text": txt("a")}, abs.V{"t": 1, "text": txt("b")}}}}}
+			bye1 := abs.V{"k": "BYE", "srcs": abs.L{abs.L{0, 0, 0, 1}}, "reason": txt("x] [y")}
+			rr := abs.V{"k": "RR", "ssrc": abs.L{1, 2, 3, 4}, "reports": abs.L{}, "ext": abs.L{}}
+			scriptRT(s, abs.V{"k": "LIST", "pkts": abs.L{one, two}})
+			scriptRT(s, abs.V{"k": "LIST", "pkts": abs.L{two, one, bye1}})
+			scriptRT(s, abs.V{"k": "CP", "pkts": abs.L{rr, one, two}})
+			scriptRT(s, abs.V{"k": "CP", "pkts": abs.L{rr, two, one}})
+		}
+		// two adjacent frames with the same body under different headers (every ordered pair of registered types)
+		{
+			hs := [][2]int{{200, 1}, {201, 1}, {202, 1}, {203, 7}, {204, 3}, {205, 1}, {205, 5}, {205, 11}, {205, 15}, {206, 1}, {206, 2}, {206, 4}, {206, 15}, {207, 0}, {199, 9}}
+			bodies := [][]byte{rep([]byte{0, 0, 0, 1}, 7), {1, 2, 3, 4, 5, 6, 7, 8, 9, 10, 11, 12, 13, 14, 15, 16, 17, 18, 19, 20, 21, 22, 23, 24, 25, 26, 27, 28}}
+			for _, body := range bodies {
+				for _, a := range hs {
+					for _, b := range hs {
+						if a != b {
+							scriptDgram(s, append(frame(a[0], a[1], body), frame(b[0], b[1], body)...))
+						}
+					}
+				}
+			}
+		}
 		// texts that end in a multi-octet character cut short
 		for _, sf := range dict.Suffixes() {
 			for _, tx := range []abs.L{toL(sf), cat(abc, toL(sf)), cat(abs.L{117, 64, 104, 46}, toL(sf))} {
@@ -799,11 +837,21 @@ func init() {
 		g2 := gen.New(7)
 		for _, kind := range g2.Kinds() {
 			var base []byte
-			for try := 0; try < 50 && (base == nil || len(base) > 40); try++ {
-				base = encodeWith(g2.Of(kind))
+			for try := 0; try < 50; try++ { // the longest of 50 encodings that has at most 40 octets
+				if b := encodeWith(g2.Of(kind)); b != nil && len(b) <= 40 && len(b) > len(base) {
+					base = b
+				}
 			}
 			if base == nil {
 				continue
+			}
+			// the packet's own first word (its header) and its own second word repeated further down in its body
+			for _, w := range [][]byte{base[0:4], base[4:8]} {
+				for off := 8; off+4 <= len(base); off += 4 {
+					b := append([]byte(nil), base...)
+					copy(b[off:], w)
+					scriptOwn(s, b, kind)
+				}
 			}
 			for _, tk := range gen.Dict {
 				if len(tk) > 4 || len(tk) < 2 {
@@ -977,6 +1025,25 @@ func init() {
 					}
 				}
 			}
+		}
+		// a datagram that could also be read as "16-bit length, then that many octets" (RFC 4571 stream framing):
+		// its first two octets, taken as a number, are its total length minus two
+		for _, first := range []abs.V{
+			{"k": "PLI", "sender": g.U32(), "media": g.U32()},
+			{"k": "SDES", "chunks": abs.L{abs.V{"src": g.U32(), "items": abs.L{abs.V{"t": 1, "text": abs.L{97}}}}}},
+			{"k": "FIR", "sender": g.U32(), "media": g.U32(), "fir": abs.L{abs.V{"ssrc": g.U32(), "seq": 1}}},
+			{"k": "RAW", "bytes": abs.L{0x85, 210, 0, 1, 9, 9, 9, 9}},
+		} {
+			fb := encodeWith(first)
+			if fb == nil {
+				continue
+			}
+			total := int(fb[0])<<8 | int(fb[1]) + 2
+			fill := total - len(fb) - 12 // an APP packet with that much data completes the datagram
+			if fill < 0 || fill%4 != 0 {
+				continue
+			}
+			scriptRT(s, abs.V{"k": "LIST", "pkts": abs.L{first, abs.V{"k": "APP", "st": 1, "ssrc": g.U32(), "name": abs.L{78, 65, 77, 69}, "data": g.Bytes(fill)}}})
 		}
 		// encodings that pass a size threshold octet by octet (free-form fields) or word by word
 		for _, t := range []int{1024, 1500, 2048, 4096} {
